@@ -28,6 +28,7 @@ CASES = [
     (r'ef\.scan', r'(EliasFanoIterator.*|iter|iter_from|into_iter|len)', ['ef_seq', 'ef_dict']),
     (r'ef\.scan', r'.*', ['ef_dict', 'ef_seq']),
     (r'ef\.(guards|dict).*', r'.*', ['ef_dict']),
+    (r'lenders\.take', r'.*', ['lenders_take']),
     (r'lenders\..*', r'.*', ['lenders']),
     (r'rank9', r'.*', ['rank9']),
     (r'rank_small.*', r'.*', ['rank_all']),
